@@ -194,7 +194,8 @@ def global_state_rule(ctx, rep, R="C13.g"):
                       what=f"{fn_key(b)}: thread-local state is accessed independently of the function's arguments" if not dep else
                            f"{fn_key(b)}: thread-local state is read/written with {dep[0]}: results of later calls on this thread depend on earlier inputs (e.g. a derived key cached by salt unlocks with any password)")
     # static items with interior mutability that are locked / borrowed / stored to
-    MUT = re.compile(r"^std::sync::(Mutex::<T>::lock|RwLock::<T>::(write|read))$|^std::cell::RefCell::<T>::(borrow_mut|replace)$|^std::sync::atomic::Atomic\w+::(store|swap|fetch_\w+|compare_exchange\w*)$|^std::sync::LazyLock::<T, F>::force$")
+    # (atomics - counters, flags - and LazyLock constants such as a compiled regex are not argument-dependent state: not flagged)
+    MUT = re.compile(r"^std::sync::(Mutex::<T>::lock|RwLock::<T>::(write|read))$|^std::cell::RefCell::<T>::(borrow_mut|replace)$")
     nst = 0
     for b in prog.by_crate["rustic_core"] + prog.by_crate.get("rustic_backend", []):
         for bb, t in b.calls():
